@@ -6,7 +6,7 @@ Every check (harness/cNN.py) uses a `Check` object:
     ck.coq_build(["Properties/C04.vo"])         # regenerate Gen/, make, Print Assumptions
     out = ck.coq_cases("c04_a", coq_text)        # run model-side cases with vm_compute
     ck.case(nontrivial=True, sample=...)         # coverage accounting
-    ck.violation(key, desc, replay)              # or matched against known_findings.json
+    ck.violation(key, desc, replay)              # or matched against known_findings/<id>.json
     ck.finish()                                  # evidence + exit status
 """
 from __future__ import annotations
@@ -116,8 +116,8 @@ class Check:
         BUILD.mkdir(exist_ok=True)
         EVID.mkdir(exist_ok=True)
         REPLAYS.mkdir(exist_ok=True)
-        self.known = json.loads((VERIF / "known_findings.json").read_text()) \
-            if (VERIF / "known_findings.json").exists() else {"findings": []}
+        kf = VERIF / "known_findings" / f"{pid}.json"
+        self.known = json.loads(kf.read_text()) if kf.exists() else {"findings": []}
 
     # ------------------------------------------------------------ accounting
     def case(self, key=None, nontrivial=True, sample=None, n=1):
